@@ -140,7 +140,7 @@ def run_shard(ctx, shard):
         if rng.random() < 0.3:
             s += '# Legend:\na = {fill:red}\nbig = {stroke: blue}\n'
         st = {'fill': rng.choice(COLORS), 'bg': rng.choice(COLORS), 'sc': rng.choice(COLORS), 'ff': rng.choice(FONTS),
-              'fs': rng.choice([8, 10, 14, 30]), 'sw': rng.choice([1.0, 2.0, 2.5, 0.25])}
+              'fs': rng.choice([8, 10, 14, 30, 0, 200]), 'sw': rng.choice([1.0, 2.0, 2.5, 0.25, 0.0, 16.0, 16.5, 33.0, 100.0])}
         if rng.random() < 0.25:
             for f in ('fill', 'bg', 'sc', 'ff'):
                 if rng.random() < 0.6:
